@@ -46,6 +46,12 @@ class Call:
         self.ctrs.append(c)
         return c
 
+    def new_attr(self, name):
+        """Any other attribute of the engine (instance or class level): an unconstrained string that may or may not be
+        shared between calls / engines - over-approximates both."""
+        self.attrs = getattr(self, "attrs", 0) + 1
+        return z3.String(f"self.{name}{self.i}_{self.attrs}")
+
 
 def _is_counter(node):
     return isinstance(node, ast.Attribute) and node.attr == "relation_name_counter"
@@ -69,6 +75,8 @@ def tr_expr(node, call, env):
     if isinstance(node, ast.FormattedValue):
         if _is_counter(node.value) or (isinstance(node.value, ast.Name) and env.get(node.value.id) is COUNTER):
             return call.new_ctr()  # any format spec: over-approximated by an arbitrary string
+        if isinstance(node.value, ast.Attribute) and isinstance(node.value.value, ast.Name) and node.value.value.id == "self":
+            return call.new_attr(node.value.attr)  # any rendering of an engine attribute: arbitrary string
         if node.format_spec is not None or node.conversion not in (-1, 115):
             raise Unencodable("format spec / conversion on a non-counter value")
         return tr_expr(node.value, call, env)
@@ -85,6 +93,8 @@ def tr_expr(node, call, env):
         return tr_expr(a, call, env)
     if _is_counter(node):
         raise Unencodable("counter used outside of string formatting")
+    if isinstance(node, ast.Attribute) and isinstance(node.value, ast.Name) and node.value.id == "self":
+        return call.new_attr(node.attr)
     raise Unencodable(f"expression {ast.dump(node)[:80]}")
 
 
